@@ -11,7 +11,7 @@ class Prop:
     pid = "C00"
     pkg = "snaps"
     test = "^TestVerifTrace$"
-    fields = {"obs": ["outcome", "errors", "logs", "writes", "line"], "fs": "*", "counters": "*"}
+    fields = {"obs": ["outcome", "errors", "logs", "writes", "~line"], "fs": "*", "counters": "*"}
     rule = ""
     outside_model = ""
     trusted = []
@@ -77,6 +77,8 @@ def safe_oracle(prop, c, ops, results, side):
     """The oracle reads transcripts; a transcript it cannot interpret (a side that stopped early or answered in another
     shape) is a failure of that side, never a crash of the check."""
     try:
+        if any(r[0] == "clean" and r[2].get("layout") == "0" for r in results or []):
+            return prop.skip("the summary Clean printed has a layout the harness cannot read: nothing is judged from it")
         return prop.oracle(c, ops, results)
     except Exception as e:                                   # noqa: BLE001
         return [{"msg": "the %s transcript could not be interpreted by the oracle (%s: %s)" % (side, type(e).__name__, e), "oracle_error": True}]
@@ -223,7 +225,9 @@ def run_property(prop, tier, seed, replay_path=None):
 
         # ---- 4./5. run and evaluate
         prop._skipped = collections.Counter()
+        common.DRIFT.clear()
         ev = evaluate(prop, cases, bins, driver, workdir)
+        drift0 = dict(common.DRIFT)
         # (the oracle runs on the implementation transcript and on the model transcript of every case: halve)
         not_judged = {k: (v + 1) // 2 for k, v in prop._skipped.items()}
 
@@ -387,6 +391,7 @@ def run_property(prop, tier, seed, replay_path=None):
             "correspondence_mismatches": len(mism_cases),
             "oracle_failures_unknown": len(unknown_fail),
             "oracle_guarded_out": dict(sorted(not_judged.items())),
+            "presentation_drift": dict(sorted(drift0.items())),
             "oracle_judged_cases_at_least": max(0, len(cases) - sum(not_judged.values())),
             "distribution": dict(sorted(dist.items())),
             "outside_model": prop.outside_model,
